@@ -83,8 +83,12 @@ def _near_equal(rng):
     return (x, y) if rng.random() < 0.5 else (-y, -x)
 
 
-def _interval(rng, kind):
+def _interval(rng, kind, n=8):
     if kind == "unit": a, b = -1.0, 1.0
+    elif kind == "far-narrow":      # far from the origin and narrow: |b-a|/max(|a|,|b|) on a ladder from 1e-12 n^2 (the n nodes are still
+        c = rng.choice([-1, 1]) * 10 ** rng.uniform(-3, 9)       # thousands of ulps apart) up to the 1e-4 of the other kinds
+        lo = math.log10(1e-12 * n * n)
+        w = abs(c) * 10 ** rng.uniform(lo, max(lo, -3.5)); a, b = c - w / 2, c + w / 2
     elif kind == "zero-one": a, b = 0.0, 1.0
     elif kind == "generic":
         c = rng.choice([-1, 1]) * 10 ** rng.uniform(-3, 3); w = 10 ** rng.uniform(-3, 3)
@@ -154,7 +158,7 @@ def _int_poly_case(rng, n, a, b, tags):
 
 
 def _rule_case(rng, n, kind, extra=()):
-    a, b = _interval(rng, kind)
+    a, b = _interval(rng, kind, n)
     tags = ["rule", kind, "odd" if n % 2 else "even", "n<=40" if n <= 40 else ("n<=512" if n <= 512 else "n>512")] + list(extra)
     r = rng.random()
     M = max(abs(a), abs(b))
@@ -165,6 +169,395 @@ def _rule_case(rng, n, kind, extra=()):
 
 
 INT_NS = [1, 2, 3, 4, 5, 6, 7, 8, 9, 10, 15, 16, 30, 31, 64]
+
+# ------------------------------------------------------------------ nested integrations and sessions
+# lev  := kind n a b      kind: I = (func,a,b,n), F = (func,rule), U = (values,rule), D = (func,a,b) with the default order 30
+# core := P fexpr | G k n a b fexpr      innermost integrand in v0..v(d-1); G multiplies by the value overload called by the
+#                                        integrand itself with k unit values on the rule (n,a,b) (rejected when k != n)
+# nest d lev_1..lev_d core               the outermost level through (func,a,b,n), (func,rule), (values,rule): three values
+# sess k req_1..req_k                    requests made one after the other in one process:
+#   R n a b | V n a b <list of values> | N d lev.. core | X at d lev.. core   (X: the core throws at its at-th evaluation)
+MOD_KINDS = ["unit", "zero-one", "generic", "straddle", "far"]
+
+
+def _order(l): return 30 if l[0] == "D" else l[1]
+def _lev_tok(l): return f"{l[0]} {l[1]} {hx(l[2])} {hx(l[3])}"
+def _levs_tok(levs): return f"{len(levs)} " + " ".join(_lev_tok(l) for l in levs)
+
+
+def _u_expr(j, c0, s):
+    v = f"v {j}"
+    if c0 != 0.0: v = f"- {v} c {hx(c0)}"
+    if s != 1.0: v = f"/ {v} c {hx(s)}"
+    return v
+
+
+def _pow2_near(w):
+    return math.ldexp(1.0, math.frexp(abs(w))[1] - 1) if w != 0.0 else 1.0
+
+
+def _core_poly(rng, levs, local=False):
+    """a polynomial core: each variable enters through u_j = (x_j - c0_j)/s_j (global: c0 = 0, s = 2^e with 1 <= max|u| < 2;
+    local: c0 = first limit, s = the power of two below the length, so that u runs over [0, 1..2)); degree in x_j <= 2 n_j - 1"""
+    us = []
+    for j, l in enumerate(levs):
+        a, b = l[2], l[3]
+        if local: us.append(_u_expr(j, a, _pow2_near(b - a)))
+        else: us.append(_u_expr(j, 0.0, math.ldexp(1.0, _unit_exp(a, b))))
+    d = len(levs)
+    if d == 1:
+        deg = rng.randint(0, min(2 * _order(levs[0]) - 1, 12))
+        co = [rng.choice([0.0, 1.0, -1.0, rng.uniform(-3, 3)]) / 2.0 ** k for k in range(deg + 1)]
+        if co[-1] == 0.0: co[-1] = 1.0 / 2.0 ** deg
+        ex = f"c {hx(co[-1])}"
+        for c in reversed(co[:-1]): ex = f"+ c {hx(c)} * {us[0]} {ex}"
+        return ex
+    terms = []
+    for _ in range(rng.randint(1, 4)):
+        budget = 8; fac = []
+        for j in rng.sample(range(d), d):
+            e = rng.randint(0, min(2 * _order(levs[j]) - 1, 3, budget)); budget -= e
+            fac += [us[j]] * e
+        t = f"c {hx(rng.choice([1.0, -1.0, 0.5, rng.uniform(-3, 3)]))}"
+        for f_ in fac: t = f"* {t} {f_}"
+        terms.append(t)
+    ex = terms[0]
+    for t in terms[1:]: ex = f"+ {ex} {t}"
+    return ex
+
+
+def _smooth_core(rng, d):
+    j, k = rng.randrange(d), rng.randrange(d)
+    return rng.choice([f"sin + v {j} v {k}", f"exp neg * v {j} v {k}", f"/ c 0x1p+0 + c 0x1p+0 * v {j} v {k}", f"cos v {j}"])
+
+
+def _mod_interval(rng, kinds=MOD_KINDS):
+    a, b = _interval(rng, rng.choice(kinds))
+    if rng.random() < 0.2: a, b = b, a
+    return a, b
+
+
+def _levels(rng, d, budget, ns=None):
+    """d levels whose orders multiply to at most budget evaluations of the core"""
+    cap = max(1, int(budget ** (1.0 / d) + 1e-9))
+    levs = []; prod = 1
+    for j in range(d):
+        n = rng.randint(1, min(cap + (1 if d <= 3 else 0), 12)) if ns is None else ns[j]
+        k = rng.choices(["I", "F", "U", "D"], [0.45, 0.3, 0.15, 0.1 if (d <= 2 and prod * 30 <= budget) else 0.0])[0]
+        if k == "D": n = 30
+        prod *= n
+        a, b = _mod_interval(rng)
+        levs.append((k, n, a, b))
+    return levs
+
+
+def _evals(levs):
+    p = 1
+    for l in levs: p *= _order(l)
+    return p
+
+
+def _core_tok(rng, levs, guard=None, local=False, smooth=False):
+    """guard: None = plain core; 'match' / 'mismatch' = the integrand calls the value overload itself"""
+    ex = _smooth_core(rng, len(levs)) if smooth else _core_poly(rng, levs, local)
+    if guard is None: return f"P {ex}"
+    n = rng.choice([1, 2, 3, 4, 5, 8, 9])
+    k = n if guard == "match" else rng.choice([n - 1, n + 1, 0, 2 * n, rng.randint(0, 12)])
+    if guard != "match" and k == n: k = n + 1
+    a, b = _mod_interval(rng, ["unit", "zero-one", "generic"])
+    return f"G {k} {n} {hx(a)} {hx(b)} {ex}"
+
+
+def _nest_case(rng, d, budget, guard=None, smooth=False):
+    levs = _levels(rng, d, budget)
+    core = _core_tok(rng, levs, guard, smooth=smooth)
+    tags = ["nest", f"depth{d}", "smooth" if smooth else "poly"] + ([f"guard-{guard}"] if guard else [])
+    return Case(f"nest {_levs_tok(levs)} {core}", tags, tol=(1e-12, _abs_tol([("N", levs, core)])))
+
+
+def _panel_limits(rng, n, k):
+    """k+1 limits of k adjacent panels of (nearly) equal width w at offset c, c/w on a geometric ladder up to 1e12/n^2 (the nodes
+    of every panel stay many ulps apart), exactly representable (binary) or generic; either sign, ascending or descending"""
+    rmax = math.log10(1e12 / n ** 2)
+    R = 0.0 if rng.random() < 0.1 else 10.0 ** rng.uniform(-0.5, rmax)
+    if rng.random() < 0.5:
+        w = math.ldexp(1.0, rng.randint(-20, 20)); c = w * float(round(R))
+        if rng.random() < 0.3: w *= rng.choice([0.5, 0.25, 0.75, 1.5, 3.0])
+    else:
+        w = 10.0 ** rng.uniform(-3, 3); c = w * R * rng.uniform(1, 2)
+    lim = [c + j * w for j in range(k + 1)]
+    if rng.random() < 0.3: lim = [-x for x in lim]
+    if rng.random() < 0.3: lim = lim[::-1]
+    return lim
+
+
+SESS_NS = [1, 2, 3, 4, 5, 6, 7, 8, 9, 10, 12, 15, 16, 20, 31, 32]
+
+
+def _one_request(rng, mode, n, a, b):
+    """a rule request or a one-level integration of a local polynomial on [a,b]"""
+    if mode == "R": return ("R", n, a, b)
+    levs = [(mode, n, a, b)]
+    return ("N", levs, _core_tok(rng, levs, local=True))
+
+
+def _req_tok(q):
+    if q[0] == "R": return f"R {q[1]} {hx(q[2])} {hx(q[3])}"
+    if q[0] == "V": return f"V {q[1]} {hx(q[2])} {hx(q[3])} {flist(q[4])}"
+    if q[0] == "N": return f"N {_levs_tok(q[1])} {q[2]}"
+    return f"X {q[3]} {_levs_tok(q[1])} {q[2]}"
+
+
+def _random_request(rng, budget=400, maxdepth=4):
+    r = rng.random()
+    if r < 0.25:
+        n = rng.choice(SESS_NS); a, b = _mod_interval(rng); return ("R", n, a, b)
+    if r < 0.35:
+        n = rng.choice([1, 2, 3, 4, 5, 8, 9, 16]); a, b = _mod_interval(rng)
+        return ("V", n, a, b, [rng.choice([1.0, rng.uniform(-2, 2)]) for _ in range(n)])
+    d = rng.randint(1, maxdepth); levs = _levels(rng, d, budget)
+    core = _core_tok(rng, levs, "match" if rng.random() < 0.15 else None, smooth=rng.random() < 0.15)
+    if r < 0.8: return ("N", levs, core)
+    tot = _evals(levs)
+    return ("X", levs, core, rng.choice([1, tot, max(1, tot // 2), rng.randint(1, tot), tot + 1]))
+
+
+def _session(rng):
+    shape = rng.choice(["panels", "panels", "shift", "shift", "orders", "reversed", "repeat", "guard", "guard", "mixed", "mixed"])
+    reqs = []
+    mode = lambda: rng.choice(["R", "R", "I", "I", "F", "U"])
+    if shape == "panels":
+        n = rng.choice(SESS_NS); k = rng.randint(2, 5); lim = _panel_limits(rng, n, k)
+        rev = rng.random() < 0.15
+        m = rng.choice(["R", "I", "F", "U", "mix"])
+        for j in range(k):
+            a, b = (lim[j + 1], lim[j]) if rev else (lim[j], lim[j + 1])
+            reqs.append(_one_request(rng, mode() if m == "mix" else m, n, a, b))
+    elif shape == "shift":
+        # the same request again with the limits moved by a relative amount on the ladder 1e-16 .. 1e-6
+        n = rng.choice(SESS_NS); a, b = _mod_interval(rng); M = max(abs(a), abs(b))
+        m = rng.choice(["R", "R", "I", "F"])
+        reqs.append(_one_request(rng, m, n, a, b))
+        for _ in range(rng.randint(1, 3)):
+            dd = 10.0 ** rng.uniform(-16, -6) * rng.choice([-1, 1]); v = rng.choice(["scale", "translate", "stretch"])
+            if v == "scale": a2, b2 = a * (1 + dd), b * (1 + dd)
+            elif v == "translate": a2, b2 = a + dd * M, b + dd * M
+            else: a2, b2 = a, b + dd * (b - a)
+            if a2 == a and b2 == b:
+                a2 = math.nextafter(a, math.inf); b2 = math.nextafter(b, math.inf)
+            reqs.append(_one_request(rng, m, n, a2, b2))
+            if rng.random() < 0.3: reqs.append(reqs[0])
+    elif shape == "orders":
+        n = rng.choice(SESS_NS); a, b = _mod_interval(rng); m = rng.choice(["R", "I", "F"])
+        for n2 in [n, rng.choice([n + 1, max(1, n - 1), 2 * n, max(1, n // 2), 1]), n, rng.choice([n + 1, max(1, n - 1)])][:rng.randint(2, 4)]:
+            reqs.append(_one_request(rng, m, n2, a, b))
+    elif shape == "reversed":
+        n = rng.choice(SESS_NS); a, b = _mod_interval(rng); m = rng.choice(["R", "I", "F", "U"])
+        q = _one_request(rng, m, n, a, b)
+        reqs += [q, _one_request(rng, m, n, b, a), q]
+    elif shape == "repeat":
+        q1 = _random_request(rng); q2 = _random_request(rng)
+        reqs = rng.choice([[q1, q1], [q1, q2, q1], [q1, q1, q2, q2], [q1, q2, q1, q2]])
+    elif shape == "guard":
+        # a size-guard probe after other requests, after a request abandoned by its integrand, or made by an integrand
+        for _ in range(rng.randint(0, 2)): reqs.append(_random_request(rng, 200, 3))
+        if rng.random() < 0.7:
+            d = rng.randint(1, 3); levs = _levels(rng, d, 200); tot = _evals(levs)
+            reqs.append(("X", levs, _core_tok(rng, levs), rng.choice([1, tot, max(1, tot // 2), rng.randint(1, tot)])))
+            if rng.random() < 0.3: reqs.append(_random_request(rng, 200, 2))
+        g = "match" if rng.random() < 0.25 else "mismatch"
+        if rng.random() < 0.5:
+            n = rng.choice([1, 2, 3, 4, 5, 8, 9, 16, 33]); a, b = _mod_interval(rng)
+            k = n if g == "match" else rng.choice([n - 1, n + 1, 0, 2 * n, rng.randint(0, 40)])
+            if g != "match" and k == n: k = n + 1
+            reqs.append(("V", n, a, b, [1.0] * k))
+        else:
+            d = rng.randint(1, 4); levs = _levels(rng, d, 300)
+            reqs.append(("N", levs, _core_tok(rng, levs, g)))
+    else:
+        for _ in range(rng.randint(3, 6)): reqs.append(_random_request(rng))
+    line = f"sess {len(reqs)} " + " ".join(_req_tok(q) for q in reqs)
+    return Case(line, ("sess", shape), tol=(1e-12, _abs_tol(reqs)))
+
+
+# ---- reading the requests back from the case text (the predicates do not depend on generator metadata)
+def _rd_fexpr(t, p):
+    w = t[p]
+    if w in ("x", "y", "z"): return ("v", "xyz".index(w)), p + 1
+    if w == "v": return ("v", int(t[p + 1])), p + 2
+    if w == "c": return ("c", float.fromhex(t[p + 1]) if t[p + 1] not in ("nan", "inf", "-inf") else float(t[p + 1])), p + 2
+    if w in ("+", "-", "*", "/"):
+        a, p = _rd_fexpr(t, p + 1); b, p = _rd_fexpr(t, p); return (w, a, b), p
+    if w == "pow":
+        a, p = _rd_fexpr(t, p + 1); return ("pow", a, float.fromhex(t[p])), p + 1
+    if w == "pwl":
+        m = int(t[p + 1]); a, q = _rd_fexpr(t, p + 2 + 2 * m); return ("pwl", a), q
+    a, p = _rd_fexpr(t, p + 1); return (w, a), p
+
+
+def _rd_levels(t, p):
+    d = int(t[p]); p += 1; levs = []
+    for _ in range(d):
+        levs.append((t[p], int(t[p + 1]), float.fromhex(t[p + 2]), float.fromhex(t[p + 3]))); p += 4
+    return levs, p
+
+
+def _rd_core(t, p):
+    core = {"kind": t[p]}; p += 1
+    if core["kind"] == "G":
+        core.update(k=int(t[p]), n=int(t[p + 1]), a=float.fromhex(t[p + 2]), b=float.fromhex(t[p + 3])); p += 4
+    core["ast"], p = _rd_fexpr(t, p)
+    return core, p
+
+
+def _rd_session(line):
+    t = line.split(); k = int(t[1]); p = 2; reqs = []
+    for _ in range(k):
+        c = t[p]; p0 = p; p += 1
+        if c == "R":
+            q = {"op": "R", "n": int(t[p]), "a": float.fromhex(t[p + 1]), "b": float.fromhex(t[p + 2])}; p += 3
+        elif c == "V":
+            q = {"op": "V", "n": int(t[p]), "a": float.fromhex(t[p + 1]), "b": float.fromhex(t[p + 2])}; m = int(t[p + 3])
+            q["vals"] = [float.fromhex(x) for x in t[p + 4:p + 4 + m]]; p += 4 + m
+        else:
+            q = {"op": c}
+            if c == "X": q["at"] = int(t[p]); p += 1
+            q["levs"], p = _rd_levels(t, p); q["core"], p = _rd_core(t, p)
+        q["text"] = " ".join(t[p0:p]); reqs.append(q)
+    return reqs
+
+
+def _as_request(q):
+    """generator tuple -> the dictionary _rd_session produces"""
+    return _rd_session("sess 1 " + _req_tok(q))[0]
+
+
+# ---- exact reference and a-priori slack for a nested integration of a polynomial core
+def _atom(ast):
+    """u = (v_j - c0)/s in one of its spellings -> (j, c0, s)"""
+    if ast[0] == "v": return ast[1], 0.0, 1.0
+    if ast[0] == "/" and ast[2][0] == "c":
+        r = _atom(ast[1])
+        if r and r[2] == 1.0: return r[0], r[1], ast[2][1]
+    if ast[0] == "-" and ast[1][0] == "v" and ast[2][0] == "c": return ast[1][1], ast[2][1], 1.0
+    return None
+
+
+def _padd(p, q, sg=1):
+    r = dict(p)
+    for k, c in q.items(): r[k] = r.get(k, 0) + sg * c
+    return r
+
+
+def _pmul(p, q):
+    r = {}
+    for k1, c1 in p.items():
+        for k2, c2 in q.items():
+            k = tuple(x + y for x, y in zip(k1, k2)); r[k] = r.get(k, 0) + c1 * c2
+    return r
+
+
+def _poly(ast, d, atoms):
+    """-> (P, Pabs, size): the polynomial in the atoms u_0..u_(d-1) as {exponents: Fraction}, the same with every sign made positive
+    (no cancellation between subexpressions: the magnitude a floating-point evaluation works with), number of operations; None if not one"""
+    at = _atom(ast)
+    if at is not None and at[2] != 0.0 and not (ast[0] == "c"):
+        j, c0, s = at
+        if j >= d or atoms.setdefault(j, (c0, s)) != (c0, s): return None
+        k = tuple(1 if i == j else 0 for i in range(d)); return {k: Fraction(1)}, {k: Fraction(1)}, 3
+    z = tuple([0] * d)
+    if ast[0] == "c":
+        if math.isnan(ast[1]) or math.isinf(ast[1]): return None
+        return {z: Fraction(ast[1])}, {z: abs(Fraction(ast[1]))}, 0
+    if ast[0] in ("+", "-", "*"):
+        l = _poly(ast[1], d, atoms); r = _poly(ast[2], d, atoms)
+        if l is None or r is None: return None
+        if ast[0] == "*": return _pmul(l[0], r[0]), _pmul(l[1], r[1]), l[2] + r[2] + 1
+        return _padd(l[0], r[0], 1 if ast[0] == "+" else -1), _padd(l[1], r[1]), l[2] + r[2] + 1
+    if ast[0] == "neg":
+        l = _poly(ast[1], d, atoms)
+        return None if l is None else ({k: -c for k, c in l[0].items()}, l[1], l[2])
+    return None
+
+
+def _nest_reference(levs, core):
+    """(exact integral, slack, magnitude) of the nested integration of a polynomial core, all Fractions; None when the core is not a
+    polynomial, a level's limits coincide or are not moderate numbers.  Slack (a priori): per level and exponent e the moment bound of
+    DERIVATION in the variable u = (x - c0)/s, |sum w u^e - int u^e| <= L_u M_u^e r(e), r(e) = W(n) + e dt hw_u/M_u + (n + 2e + 6) 2^-53
+    (weights, node positions in x rounded relative to max(|a|,|b|), the n-term sum and the evaluation of u^e); a product of levels errs
+    by at most prod(B_j (1 + r_j)) - prod(B_j), B_j = L_u M_u^e >= |int u^e|; evaluating the core costs (operations) 2^-53 of its
+    magnitude; a G core multiplies by the weights' total of its own rule, (b-a)(1 +- (W(n) + (2n + 5) 2^-53))."""
+    d = len(levs); atoms = {}
+    pr = _poly(core["ast"], d, atoms)
+    if pr is None: return None
+    P, Pabs, size = pr
+    lv = []
+    scale = Fraction(1)
+    for j, l in enumerate(levs):
+        n = _order(l); a, b = l[2], l[3]
+        if a == b or not (2.0 ** -100 < max(abs(a), abs(b)) < 2.0 ** 100): return None
+        c0, s = atoms.get(j, (0.0, 1.0))
+        ua, ub = (Fraction(a) - Fraction(c0)) / Fraction(s), (Fraction(b) - Fraction(c0)) / Fraction(s)
+        Mu = max(abs(ua), abs(ub)); Lu = abs(ub - ua)
+        Mx = max(abs(a), abs(b)); hwx = 0.5 * abs(b - a)
+        dt = Fraction(NEWTON + 2 * EPS * Mx / hwx)
+        lv.append((n, ua, ub, Mu, Lu, dt)); scale *= Fraction(s)
+    def r(j, e):
+        n, ua, ub, Mu, Lu, dt = lv[j]
+        return Fraction(W(n)) + e * dt * (Lu / 2) / Mu + (n + 2 * e + 6) * Fraction(EPS)
+    ref = Fraction(0)
+    for k, c in P.items():
+        t = c
+        for j, e in enumerate(k):
+            n, ua, ub, Mu, Lu, dt = lv[j]; t *= (ub ** (e + 1) - ua ** (e + 1)) / (e + 1)
+        ref += t
+    slack = Fraction(0); mag = Fraction(0)
+    g = Fraction(0)
+    if core["kind"] == "G": g = Fraction(W(core["n"]) + (2 * core["n"] + 5) * EPS)
+    for k, c in Pabs.items():
+        B = c; Br = c
+        for j, e in enumerate(k):
+            n, ua, ub, Mu, Lu, dt = lv[j]; Bj = Lu * Mu ** e; B *= Bj; Br *= Bj * (1 + r(j, e))
+        slack += Br * (1 + g) * (1 + (size + 2) * Fraction(EPS)) - B; mag += B
+    if core["kind"] == "G":
+        w = Fraction(core["b"]) - Fraction(core["a"]); ref *= w; slack *= abs(w); mag *= abs(w)
+    return ref * scale, slack * abs(scale), mag * abs(scale)
+
+
+def _abs_tol(reqs):
+    """absolute part of the comparison tolerance for a session: 1e-13 of the largest magnitude an answer is formed from"""
+    m = 0.0
+    for q in reqs:
+        if q[0] == "R": m = max(m, 1e-2 * max(abs(q[2]), abs(q[3])))
+        elif q[0] == "V": m = max(m, 4.0 * abs(q[3] - q[2]))
+        else:
+            levs = q[1]
+            core = q[2] if isinstance(q[2], dict) else _rd_core(q[2].split(), 0)[0]
+            r = _nest_reference(levs, core)
+            if r is not None: m = max(m, float(r[2]))
+            else:
+                v = 4.0
+                for l in levs: v *= abs(l[3] - l[2])
+                m = max(m, v)
+    return 1e-13 * m
+
+
+def _core_guard(core): return core["kind"] == "G" and core["k"] != core["n"]
+
+
+def _nest_exact(tag, levs, core, got, what):
+    if not isinstance(got, float) or math.isnan(got) or math.isinf(got):
+        if _nest_reference(levs, core) is not None: return [(f"{tag}:exact-polynomial", f"{what}: the integral of a polynomial over moderate limits is reported as {got!r}")]
+        return []
+    r = _nest_reference(levs, core)
+    if r is None: return []
+    ref, slack, mag = r
+    if abs(Fraction(got) - ref) <= slack: return []
+    return [(f"{tag}:exact-polynomial", f"{what}: returned {got!r}, the exact integral is {float(ref)!r} (allowed {float(slack):.3g})")]
+
+
+def _describe(levs):
+    return " of ".join(f"{ {'I': '(func,a,b,n)', 'F': '(func,rule)', 'U': '(values,rule)', 'D': '(func,a,b)', '*': '(each overload)'}[l[0]] } n={_order(l)} on [{l[2]!r},{l[3]!r}]" for l in levs)
 
 
 def generate(rng, tier):
@@ -193,6 +586,8 @@ def generate(rng, tier):
             cs.append(_rule_case(rng, n, "huge-edge"))
         if n >= 2 and (n <= 6 or rng.random() < (0.15 if big else 0.05)):
             cs.append(_rule_case(rng, n, "huge-wide"))
+        if n <= 1000 and (big or n <= 16 or n % 3 == 0 or rng.random() < 0.3):
+            cs.append(_rule_case(rng, n, "far-narrow"))
         if n <= 64 or rng.random() < 0.1:
             cs.append(Case(f"rule_default {n}", ("rule_default", "odd" if n % 2 else "even"), tol=(1e-13, 1e-15)))
     cs.append(Case("rule 0 -0x1p+0 0x1p+0", ("rule", "n=0")))
@@ -258,6 +653,16 @@ def generate(rng, tier):
             kind = rng.choice(["scaled", "scaled", "subnormal", "huge-edge", "far"]); a, b = _interval(rng, kind)
         if rng.random() < 0.25: a, b = b, a
         cs.append(Case(f"values {n} {hx(a)} {hx(b)} {flist([1.0] * n)}", ("values", "unit-values", kind), tol=(1e-12, 1e-13 * abs(0.5 * b - 0.5 * a) * 2)))
+    # ---- re-entrant integrands: nested integrations of every depth 1..6 through every mix of overloads (the three overloads at the top)
+    budget = 4000 if big else 1200
+    for i in range(1200 if big else 150):
+        d = 1 + i % 6
+        r = rng.random()
+        cs.append(_nest_case(rng, d, budget, guard=("mismatch" if r < 0.15 else "match" if r < 0.22 else None), smooth=0.22 <= r < 0.3))
+    # ---- sessions: several requests in one process (adjacent panels at every offset, nearly equal requests, changing orders,
+    #      reversed limits, repeats, requests abandoned by their integrand, size-guard probes in every context)
+    for _ in range(2400 if big else 300):
+        cs.append(_session(rng))
     return cs
 
 
@@ -271,6 +676,8 @@ def nontrivial(c, io):
     if op == "int":
         n = int(t[1]); a, b = float.fromhex(t[2]), float.fromhex(t[3])
         return n % 2 == 1 or n > 64 or not (min(a, b) <= 0.0 <= max(a, b))
+    if op == "nest": return int(t[1]) >= 2
+    if op == "sess": return int(t[1]) >= 2
     return False
 
 
@@ -383,7 +790,7 @@ def _rule_predicates_u(tag, n, a, b, xs, ws, full=True, q=0.0):
     sw = math.fsum(ws)
     if abs(sw - (b - a)) > L * (Wn + 2 * EPS) + qn:
         out.append((f"{tag}:sum", f"n={n} [{a!r},{b!r}]: weights sum to {sw!r}, b-a = {b-a!r} (slack {L*(Wn+2*EPS)+qn:.3g})"))
-    if not full: return out
+    if not full or out: return out      # a wrong total (or non-finite weights) is reported as such
     kmax = min(2 * n - 1, 60)
     # monomials x^k against (b^(k+1) - a^(k+1))/(k+1)
     fa, fb, fM = Fraction(a), Fraction(b), Fraction(M)
@@ -470,6 +877,64 @@ def predicates(c, io):
             elif co is not None and len(v) == 3:
                 a, b = float.fromhex(t[2]), float.fromhex(t[3])
                 out.append(("int:exact-polynomial" + _region(a, b), f"[{a!r},{b!r}]: the integral of a polynomial with O(1) values is reported as {v[0]!r}"))
+    elif op == "nest":
+        levs, p = _rd_levels(t, 1); core, p = _rd_core(t, p)
+        what = f"nested integration, depth {len(levs)} ({_describe([('*',) + tuple(levs[0][1:])] + levs[1:])})"
+        if _core_guard(core):
+            if not io.startswith("EXIT"):
+                out.append(("nest:size-guard:reentrant", f"{what}: the integrand calls the value overload with {core['k']} values on a rule of {core['n']} rows and the call was accepted: {io[:80]}"))
+            return out
+        if io.startswith("EXIT"): return [("nest:exit", f"{what} terminated the process")]
+        if len(v) != 3 or not (v[0] == v[1] == v[2] or all(isinstance(x, float) and math.isnan(x) for x in v)):
+            out.append(("nest:overloads-agree", f"{what}: with the outermost level through (func,a,b,n), (func,rule), (values,rule) the results are {v}"))
+        for k, nm in enumerate(("(func,a,b,n)", "(func,rule)", "(values,rule)")):
+            if k < len(v):
+                e = _nest_exact("nest", levs, core, v[k], f"{what}, outermost level through {nm}")
+                if e: out += e; break
+    elif op == "sess":
+        reqs = _rd_session(c.line)
+        guard_at = next((i for i, q in enumerate(reqs) if (q["op"] == "V" and len(q["vals"]) != q["n"]) or (q["op"] == "N" and _core_guard(q["core"]))), None)
+        if guard_at is not None:
+            if not io.startswith("EXIT"):
+                q = reqs[guard_at]
+                ctx = "reentrant" if q["op"] == "N" else "plain"
+                if any(r_["op"] == "X" for r_ in reqs[:guard_at]): ctx += "-after-abandoned-call"
+                elif guard_at > 0: ctx += "-after-other-calls"
+                out.append((f"sess:size-guard:{ctx}", f"request {guard_at + 1} of the session ({q['text'][:120]}) hands the value overload a number of values different from the number of rows and was accepted: {io[:80]}"))
+            return out
+        if io.startswith("EXIT"): return [("sess:exit", "a session of well-formed requests terminated the process")]
+        p = 0; seen = {}
+        for i, q in enumerate(reqs):
+            where = f"request {i + 1} of {len(reqs)}"
+            if p >= len(v): out.append(("sess:count", f"{where}: no answer")); break
+            if q["op"] == "R":
+                m = v[p]
+                if not isinstance(m, int) or p + 1 + 2 * m > len(v): out.append(("sess:count", f"{where}: malformed rule")); break
+                ans = v[p:p + 1 + 2 * m]; p += 1 + 2 * m
+                n, a, b = q["n"], q["a"], q["b"]
+                full = n <= 16
+                if max(abs(a), abs(b)) > 0 and abs(b - a) >= max(1e-12 * n * n, 4e-16) * max(abs(a), abs(b)):
+                    out += [(sg, f"{where}: " + ms) for sg, ms in _rule_predicates("sess-rule", n, a, b, ans[1:1 + m], ans[1 + m:], full=full)]
+            elif q["op"] == "X" and v[p] == "A":
+                ans = v[p:p + 2]; p += 2
+                if ans[1] != q["at"] or q["at"] > _evals(q["levs"]):
+                    out.append(("sess:abandon-count", f"{where}: the integrand abandons the request at its evaluation {q['at']} of {_evals(q['levs'])}; reported {ans[1]}"))
+            else:
+                ans = v[p:p + 1]; p += 1
+                if q["op"] == "X":
+                    if q["at"] <= _evals(q["levs"]): out.append(("sess:abandon-count", f"{where}: the integrand throws at its evaluation {q['at']} of {_evals(q['levs'])} but the request returned {ans[0]!r}"))
+                if q["op"] in ("N", "X"):
+                    out += _nest_exact("sess", q["levs"], q["core"], ans[0], f"{where}: {_describe(q['levs'])}")
+                elif all(x == 1.0 for x in q["vals"]) and q["n"] >= 1 and isinstance(ans[0], float):
+                    hl = 0.5 * q["b"] - 0.5 * q["a"]; n = q["n"]
+                    if not (abs(0.5 * ans[0] - hl) <= abs(hl) * (W(n) + (n + 2) * 2 * EPS)):
+                        out.append(("sess:sum", f"{where}: unit values on the rule n={n} [{q['a']!r},{q['b']!r}] give {ans[0]!r}, b-a = {q['b'] - q['a']!r}"))
+            if q["op"] != "X":
+                if q["text"] in seen and seen[q["text"]][1] != ans and not any(isinstance(x, float) and math.isnan(x) for x in ans):
+                    out.append(("sess:repeatable", f"{where} is request {seen[q['text']][0] + 1} again ({q['text'][:100]}) and is answered differently: {ans[:4]} against {seen[q['text']][1][:4]}"))
+                seen.setdefault(q["text"], (i, ans))
+        else:
+            if p != len(v): out.append(("sess:count", f"{len(v) - p} surplus answer tokens"))
     elif op in ("values", "values_rows", "fun_rows"):
         pv = parse_vals(c.line)[1:]
         def rd_list(p):
